@@ -159,6 +159,15 @@ Definition sp_process (pol:nat) (mc:machine) (ev:evt) (val:list nat) (c:conf) : 
   if o_taken o || o_rejected o then o
   else Out false false (rev (map (fun s => Cb KNoTrans [] s ev false (c_act (o_conf o))) (c_act (o_conf o))) ++ o_items o) (o_conf o).
 
+(* events stored from outside (enqueue_event) are dispatched oldest first, each as a complete step on the configuration
+   the previous one left (the guard valuation is the one of the operation during which they are dispatched) *)
+Fixpoint sp_drain (pol:nat) (mc:machine) (val:list nat) (evs:list evt) (c:conf) : sres :=
+  match evs with
+  | [] => ([], c)
+  | e :: t => let o := sp_process pol mc e val c in
+              let '(i, c') := sp_drain pol mc val t (o_conf o) in (i ++ o_items o, c')
+  end.
+
 (* ---- the fragment on which the engines are proved to be this function ---- *)
 Definition core_row (nstates:nat) (x:row) : Prop :=
   (exists e, r_trig x = TrEv e /\ e <> EV_NONE) /\ r_act x <> ActDefer /\ r_exitpt x = None /\
